@@ -696,6 +696,10 @@ def build_cases(tier="quick"):
 
     # the callers of mk_calldata hand the length candidates to the path that runs the message (C15's unit: invariant target calls)
     ref += rewrap(PROP, c15.target_call_path_cases(), "candidates-reach-the-running-path")
+    # the configured candidates of a test are those of ITS configuration (C20's unit)
+    from contracts import c20
+
+    ref += rewrap(PROP, c20.main_cases(), "candidates-of-this-test", lambda c: c.unit.endswith("__main__.run_tests"))
     return generic_calldata_cases() + encode_tuple_cases() + encode_cases() + dyn_sizes_cases() + create_cases() + ref
 
 
